@@ -124,8 +124,13 @@ class Wrapf(util.WrapperMixin):
             c_interface = fileinfo.c_interface
             c_interface.append("")
             if self.newlibrary.options.literalinclude2:
+                # Every interface is written in a block of its own.
+                # Close this one before the interfaces of a flattened
+                # namespace are added.
                 c_interface.append("interface+")
             self._create_splicer("additional_interfaces", c_interface)
+            if self.newlibrary.options.literalinclude2:
+                c_interface.append("-end interface")
             fileinfo.impl.append("")
             self._create_splicer("additional_functions", fileinfo.impl)
 
@@ -2423,8 +2428,9 @@ class ModuleInfo(object):
         self.interface_lines = []
 
     def finish(self):
-        self.c_interface.append(-1)
-        self.c_interface.append("end interface")
+        if not self.newlibrary.options.literalinclude2:
+            self.c_interface.append(-1)
+            self.c_interface.append("end interface")
 
     def begin_class(self):
         self.f_type_generic = {}  # look for generic methods
